@@ -1,0 +1,42 @@
+//go:build verif
+
+package proxy
+
+import (
+	"net"
+
+	"go.minekube.com/gate/pkg/edition/java/netmc"
+	"go.minekube.com/gate/pkg/edition/java/profile"
+	"go.minekube.com/gate/pkg/edition/java/proto/packet"
+)
+
+// Verification hook (build tag `verif`, add-only): builds the real connectedPlayer and
+// serverConnection around caller-supplied connections and runs the real startHandshake, so
+// that the Handshake packet it buffers on the backend connection can be observed.
+// No logic of its own.
+
+// C19StartHandshake wires newConnectedPlayer → newServerConnection and calls startHandshake.
+// The backend connection is expected to record the buffered Handshake; the returned error is
+// startHandshake's (e.g. the backend addresser's error, or the session handler switch that a
+// recording connection refuses).
+func C19StartHandshake(
+	p *Proxy,
+	playerConn, backendConn netmc.MinecraftConn,
+	prof *profile.GameProfile,
+	virtualHost net.Addr,
+	server ServerInfo,
+) error {
+	deps := &sessionHandlerDeps{
+		proxy:          p,
+		registrar:      p,
+		configProvider: p,
+		eventMgr:       p.event,
+		authenticator:  p.authenticator,
+		loginsQuota:    p.loginsQuota,
+	}
+	player := newConnectedPlayer(playerConn, prof, virtualHost, packet.LoginHandshakeIntent, true, nil, deps)
+	sc := newServerConnection(newRegisteredServer(server), nil, player)
+	sc.connection = backendConn
+	_, err := sc.startHandshake(func() {}, make(chan *connResponse, 1))
+	return err
+}
